@@ -86,7 +86,13 @@ pub fn tok(sk: &HllSketch) -> Value {
 
 pub fn obs(sk: &HllSketch) -> Value {
     let s = seven(sk);
-    json!({"b": ranks(&s), "pos": s[3] > 0.0, "emp": sk.is_empty(), "len": sk.serialize().len()})
+    json!({"b": ranks(&s), "pos": s[3] > 0.0, "emp": sk.is_empty(), "len": sk.serialize().len(), "rel": rel6(&s)})
+}
+
+/// the relative error the one-sigma bounds advertise, in 10^-6 units: est/lb1 - 1 and 1 - est/ub1
+pub fn rel6(s: &[f64; 7]) -> Value {
+    let q = |x: f64| if x.is_finite() && x.abs() < 2000.0 { (x * 1e6).round() as i64 } else { -1 };
+    if s[3] > 0.0 { json!([q(s[3] / s[2] - 1.0), q(1.0 - s[3] / s[4])]) } else { json!([-1, -1]) }
 }
 
 fn uobs(u: &HllUnion) -> Value {
@@ -100,7 +106,7 @@ fn uobs(u: &HllUnion) -> Value {
         u.upper_bound(NumStdDev::Two),
         u.upper_bound(NumStdDev::Three),
     ];
-    json!({"b": ranks(&s), "pos": s[3] > 0.0, "emp": u.is_empty(), "len": g.serialize().len()})
+    json!({"b": ranks(&s), "pos": s[3] > 0.0, "emp": u.is_empty(), "len": g.serialize().len(), "rel": rel6(&s)})
 }
 
 fn utok(u: &HllUnion) -> Value {
@@ -629,6 +635,37 @@ fn union_single_ooo(out: &mut Shards, rng: &mut Rng, lgk: u8, lgmax: u8) {
     }
 }
 
+/// lg_k above 12 (where the bounds come from the analytic RSE rather than the tables): two register-mode
+/// inputs, their union (out of order), its three conversions and a round trip
+fn union_large_lgk(out: &mut Shards, rng: &mut Rng, lgk: u8) {
+    let mut s = Sess::new(out, "hll-union-large-lgk");
+    let thr = (3 * (1usize << (lgk - 3))) / 4;
+    let mut ins = vec![];
+    for &t in &[4u8, 8] {
+        let id = s.new_sketch(lgk, t);
+        for _ in 0..(thr + 40 + rng.below(200) as usize) {
+            if s.dead { return; }
+            let item = rng.next();
+            let (slot, val) = refhash::hll_coupon(&item);
+            s.upd(id, pack(slot, val as u32));
+        }
+        s.chk(id);
+        ins.push(id);
+    }
+    let u = s.new_union(lgk);
+    for &i in &ins {
+        s.uupd(u, i);
+    }
+    s.uchk(u);
+    let outs = s.utosk3(u);
+    if !s.dead {
+        let r = s.rt(outs[1]);
+        let u2 = s.new_union(lgk);
+        s.uupd(u2, r);
+        s.uchk(u2);
+    }
+}
+
 pub fn record_union(args: &Args) {
     let seed = args.u64("seed", 1);
     let mut rng = Rng::new(seed ^ 0x0C03);
@@ -644,6 +681,10 @@ pub fn record_union(args: &Args) {
         }
         for &(lgk, lgmax) in &[(4u8, 4u8), (6, 8), (8, 8), (9, 7), (10, 12)] {
             union_single_ooo(&mut out, &mut rng, lgk, lgmax);
+        }
+        union_large_lgk(&mut out, &mut rng, 13);
+        if thorough {
+            union_large_lgk(&mut out, &mut rng, 14);
         }
     }
     let (runs, events) = out.finish();
